@@ -6,6 +6,7 @@ import WS.Model.Utf8
 import WS.Model.Frame
 import WS.Model.Conn
 import WS.Model.Threads
+import WS.Model.ThreadsProg
 import WS.Model.Readers
 namespace WS.Driver.Core
 open WS WS.Driver WS.Model
@@ -226,6 +227,18 @@ def ops : List String → Option String
     let st := Model.Threads.run Gen.sendLoopUnderLock framesF accF (Model.Threads.init framesF) sc
     let pcs := (List.range fr.length).map fun i => match st.pc i with
       | .start => "s" | .writing _ => "w" | .done => "d"
+    some (s!"{summarize st.wire}|{String.intercalate "." (st.order.map toString)}|{String.intercalate "" pcs}")
+  | ["m-threads-prog", progs, sched, acc] => do
+    -- progs: one program per thread joined by '.', a program = frames (hex) joined by ',' (`-` = no frame)
+    let pr ← (progs.splitOn ".").mapM fun t =>
+      if t == "-" then some [] else (t.splitOn ",").mapM parseBytes
+    let sc ← if sched == "-" then some [] else (sched.splitOn ".").mapM String.toNat?
+    let ac ← if acc == "-" then some [] else (acc.splitOn ".").mapM String.toNat?
+    let progF : Nat → List Bytes := fun i => pr.getD i []
+    let accF : Nat → Nat := fun k => if ac.isEmpty then 1000000000 else ac.getD (k % ac.length) 1
+    let st := Model.ThreadsProg.run Gen.sendLoopUnderLock accF (Model.ThreadsProg.init progF) sc
+    let pcs := (List.range pr.length).map fun i => match st.pc i with
+      | .ready => "r" | .writing _ => "w" | .released => "l" | .done => "d"
     some (s!"{summarize st.wire}|{String.intercalate "." (st.order.map toString)}|{String.intercalate "" pcs}")
   | ["m-threads-recv", frames, sched] => do
     -- frames: `fin:opcode:payload` joined by '.'; sched: task ids joined by '.'
